@@ -97,6 +97,7 @@ func (p *defaultPoll) Wait() (err error) {
 	// init
 	caps, msec, n := barriercap, -1, 0
 	p.Reset(128, caps)
+	vp(vpPollStart, unsafe.Pointer(p), 0, 0)
 	// wait
 	for {
 		if n == p.size && p.size < 128*1024 {
@@ -149,6 +150,7 @@ func (p *defaultPoll) handler(events []epollevent) (closed bool) {
 				vp(vpFdClose, nil, int64(p.fd), 7)
 				syscall.Close(p.fd)
 				operator.done()
+				vp(vpPollExit, unsafe.Pointer(p), 0, 0)
 				return true
 			}
 			operator.done()
